@@ -249,11 +249,15 @@ pub fn compare(topo: &ScionTopology, t: &RTopo, s: usize, d: usize, dp: &RStdPat
             mon.violation("verdict-differs:external-packet-at-hop-without-ingress-interface", format!("[{family}] simulator: {sim:?}; reference router: {reference:?}"), rj(json!({"steps": steps})));
             return;
         }
-        if pc == "peer" {
+        // both known findings are refusals by the simulator; a packet of these classes that the
+        // simulator delivers although the reference refuses it is a different matter
+        let sim_refuses = !matches!(&sim, SimEnd::Delivered { .. });
+        let sim_interface_error = matches!(&sim, SimEnd::Error { class, .. } if *class == "interface");
+        if pc == "peer" && sim_refuses {
             mon.violation("verdict-differs:peering-flag-set", format!("[{family}] simulator: {sim:?}; reference router: {reference:?}"), rj(json!({"steps": steps})));
             return;
         }
-        if xover_mid {
+        if xover_mid && sim_interface_error {
             mon.violation("verdict-differs:cross-over-into-mid-segment-hop", format!("[{family}] simulator: {sim:?}; reference router: {reference:?}"), rj(json!({"steps": steps})));
             return;
         }
@@ -315,6 +319,34 @@ fn segments(dp: &RStdPath) -> Vec<(refscion::wire::RInfo, Vec<refscion::wire::RH
     (0..dp.n_segments()).map(|s| (dp.infos[s].clone(), dp.hops[dp.seg_range(s)].to_vec())).collect()
 }
 
+
+/// which AS of the topology authenticated each hop field of a travel-order segment (the AS whose
+/// key reproduces the MAC under the SegID chain); None for foreign/peering hop fields
+fn hop_owners(t: &refscion::topo::RTopo, inf: &refscion::wire::RInfo, hops: &[refscion::wire::RHop]) -> Vec<Option<usize>> {
+    let cons = inf.flags & 1 == 1;
+    let mut beta = inf.seg_id;
+    let mut out = vec![];
+    for h in hops {
+        if !cons {
+            beta = refscion::mac::beta_next(beta, &h.mac);
+        }
+        out.push((0..t.ases.len()).find(|a| refscion::mac::hop_mac(&t.ases[*a].key, beta, inf.timestamp, h.exp, h.cons_in, h.cons_eg) == h.mac));
+        if cons {
+            beta = refscion::mac::beta_next(beta, &h.mac);
+        }
+    }
+    out
+}
+
+/// the hop fields from travel index `j` on, with the SegID advanced over the dropped ones
+fn seg_suffix(seg: &(refscion::wire::RInfo, Vec<refscion::wire::RHop>), j: usize) -> (refscion::wire::RInfo, Vec<refscion::wire::RHop>) {
+    let mut inf = seg.0.clone();
+    for h in &seg.1[..j] {
+        inf.seg_id = refscion::mac::beta_next(inf.seg_id, &h.mac);
+    }
+    (inf, seg.1[j..].to_vec())
+}
+
 fn assemble(segs: &[(refscion::wire::RInfo, Vec<refscion::wire::RHop>)]) -> Option<RStdPath> {
     if segs.is_empty() || segs.len() > 3 {
         return None;
@@ -340,6 +372,7 @@ pub fn run(args: &Args, mon: &mut Mon) -> (String, Vec<&'static str>) {
     mon.floor("delivered_both", 200);
     mon.floor("refused_both", 200);
     mon.floor("family:splice", 100);
+    mon.floor("family:mid-splice", 100);
     mon.floor("family:corrupt", 100);
     mon.floor("family:link-down", 50);
     mon.floor("family:mid-path", 50);
@@ -456,6 +489,32 @@ pub fn run(args: &Args, mon: &mut Mon) -> (String, Vec<&'static str>) {
                 let bsegs = segments(&other.2.dp);
                 let mut pool = a.clone();
                 pool.extend(bsegs);
+                // mid-segment splices: a prefix of one segment joined, at a common AS, to the
+                // rest of another segment (SegID advanced so that the hop fields still verify)
+                let owners: Vec<Vec<Option<usize>>> = pool.iter().map(|sg| hop_owners(&t, &sg.0, &sg.1)).collect();
+                for x in 0..pool.len() {
+                    if pool[x].0.flags & 2 != 0 {
+                        continue;
+                    }
+                    for y in 0..pool.len() {
+                        if x == y || pool[y].0.flags & 2 != 0 {
+                            continue;
+                        }
+                        for jx in 1..=pool[x].1.len() {
+                            for jy in 0..pool[y].1.len() {
+                                if (jx == pool[x].1.len() && jy == 0) || owners[x][jx - 1].is_none() || owners[x][jx - 1] != owners[y][jy] {
+                                    continue;
+                                }
+                                let head = (pool[x].0.clone(), pool[x].1[..jx].to_vec());
+                                let tail = seg_suffix(&pool[y], jy);
+                                if let Some(sp) = assemble(&[head, tail]) {
+                                    let mx = sp.infos.iter().map(|q| q.timestamp).max().unwrap() + 1;
+                                    compare(&topo, &t, s, other.1, &sp, s, 0, mx, "mid-splice", false, m, &pinfo);
+                                }
+                            }
+                        }
+                    }
+                }
                 // every ordered selection of 2 and some of 3 segments from the pool
                 for x in 0..pool.len() {
                     for y in 0..pool.len() {
@@ -486,7 +545,7 @@ pub fn run(args: &Args, mon: &mut Mon) -> (String, Vec<&'static str>) {
         }
     });
     (
-        format!("{n_topo} generated topologies; per topology up to 14 (quick) / 40 (thorough) AS pairs x up to 4/8 spec-authentic reference paths, each as: authentic, clock 5 s before/after the earliest hop expiry, each of the first 3 traversed links down, 5/12 single-bit corruptions (pointers, SegID, timestamp, MAC, interfaces, ExpTime), injection at every hop and at a wrong AS/interface, and all ordered 2- (sampled 3-) segment splices with the next paths. distinct = distinct (family, path class, simulator verdict, reference verdict) tuples."),
+        format!("{n_topo} generated topologies; per topology up to 14 (quick) / 40 (thorough) AS pairs x up to 4/8 spec-authentic reference paths, each as: authentic, clock 5 s before/after the earliest hop expiry, each of the first 3 traversed links down, 5/12 single-bit corruptions (pointers, SegID, timestamp, MAC, interfaces, ExpTime), injection at every hop and at a wrong AS/interface, all ordered 2- (sampled 3-) segment splices with the next paths, and all mid-segment splices (a prefix of one segment joined at a common AS to the rest of another, SegID advanced so the hop fields verify). distinct = distinct (family, path class, simulator verdict, reference verdict) tuples."),
         vec![
             "reference border router in harness/refscion/src/router.rs (data-plane spec + published reference-router behaviour), evaluating all rules; a simulator error class must match one violated rule at the same AS; a drop counts as refusal",
             "packets whose hop fields are stamped in the future are not compared (the simulator refuses them, the reference router does not judge them)",
